@@ -372,6 +372,12 @@ pub fn saturate(
     }
     stats.add("transitions", transitions.load(Ordering::Relaxed));
     let n = seen.lock().unwrap().len();
+    // canonical order (the BFS itself is parallel): "state #k" must mean the same state in
+    // every run, e.g. when a published case is replayed by the supervisor
+    {
+        let mut k = kept.lock().unwrap();
+        k.sort_by_cached_key(|(img, m)| (m.len, m.held.len(), env::fp_image(img, b"")));
+    }
     SatResult {
         states: n,
         transitions: transitions.load(Ordering::Relaxed),
